@@ -115,31 +115,31 @@ Section Level.
     destruct (match prev with Some m => Some m | None => parse_marker line end) as [[[[ind pp] ld] ct]|]; [|intros H; inversion H; lia].
     destruct (is_blank ct).
     - destruct (count_blank rest); [|intros H; inversion H; lia].
-      destruct (item_loop types rest _ [] 1 0) as [[buf tk] nm0] eqn:E. destruct (rec buf (ln + 1) st) as [[es lo] s2].
+      destruct (item_loop types _ rest _ [] 1 0) as [[buf tk] nm0] eqn:E. destruct (rec buf (ln + 1) st) as [[es lo] s2].
       intros H. inversion H; subst.
       (* taken >= 1: the loop starts at 1 and only backsteps over a newline it has counted *)
       clear - E. revert E. generalize (ind + slen ld + 1). intros prepend E.
       assert (G : forall after buf_rev tk0 nl b t n, (nl <= length buf_rev)%nat -> tk0 = S (length buf_rev) ->
-                   item_loop types after prepend buf_rev tk0 nl = (b, t, n) -> (1 <= t)%nat).
+                   item_loop types ld after prepend buf_rev tk0 nl = (b, t, n) -> (1 <= t)%nat).
       { induction after as [|l r IH]; intros buf_rev tk0 nl b t n Hn Hinv H; cbn [item_loop] in H; cbv zeta in H.
         - inversion H; subst. destruct nl; lia.
         - destruct (parse_continuation l prepend) as [cont|].
           + apply IH in H; auto; cbn [length]; destruct (str_eqb cont [10]); lia.
           + destruct (any_interrupt types BK_List (l :: r)); [inversion H; subst; destruct nl; lia|].
-            destruct (parse_marker l); [inversion H; subst; lia|].
+            destruct (parse_marker l) as [[[[? ?] other] ?]|]; [destruct (same_marker_type ld other); inversion H; subst; try lia; destruct nl; lia|].
             destruct nl; [|inversion H; subst; lia].
             apply IH in H; auto; cbn [length]; destruct (str_eqb l [10]); lia. }
       apply G in E; auto; cbn; lia.
-    - destruct (item_loop types rest pp [ct] 1 0) as [[buf tk] nm0] eqn:E. destruct (rec buf ln st) as [[es lo] s2].
+    - destruct (item_loop types _ rest pp [ct] 1 0) as [[buf tk] nm0] eqn:E. destruct (rec buf ln st) as [[es lo] s2].
       intros H. inversion H; subst. clear - E.
       assert (G : forall after buf_rev tk0 nl b t n, (nl < length buf_rev)%nat -> tk0 = length buf_rev ->
-                   item_loop types after pp buf_rev tk0 nl = (b, t, n) -> (1 <= t)%nat).
+                   item_loop types ld after pp buf_rev tk0 nl = (b, t, n) -> (1 <= t)%nat).
       { induction after as [|l r IH]; intros buf_rev tk0 nl b t n Hn Hinv H; cbn [item_loop] in H; cbv zeta in H.
         - inversion H; subst. destruct nl; lia.
         - destruct (parse_continuation l pp) as [cont|].
           + apply IH in H; auto; cbn [length]; destruct (str_eqb cont [10]); lia.
           + destruct (any_interrupt types BK_List (l :: r)); [inversion H; subst; destruct nl; lia|].
-            destruct (parse_marker l); [inversion H; subst; lia|].
+            destruct (parse_marker l) as [[[[? ?] other] ?]|]; [destruct (same_marker_type ld other); inversion H; subst; try lia; destruct nl; lia|].
             destruct nl; [|inversion H; subst; lia].
             apply IH in H; auto; cbn [length]; destruct (str_eqb l [10]); lia. }
       apply G in E; auto; cbn; lia.
